@@ -234,6 +234,19 @@ fn main() {
                     }
                 }
             }
+            if family == "illformed" {
+                let (src, map) = extra::emit_illformed(&name, seed, &indices);
+                std::fs::write(&out, src).unwrap();
+                std::fs::write(format!("{}.map.json", out), map.to_string()).unwrap();
+                return;
+            }
+            if family == "multi" {
+                let cases: Vec<Case> = indices.iter().map(|i| extra::build_multi_case(seed, *i)).collect();
+                let (src, map) = extra::emit_multi(&name, &cases, &skip);
+                std::fs::write(&out, src).unwrap();
+                std::fs::write(format!("{}.map.json", out), map.to_string()).unwrap();
+                return;
+            }
             let cases: Vec<Case> = indices.iter().map(|i| build_case(&family, seed, *i, &mode)).collect();
             let (src, map) = emit(&name, &cases, &skip);
             std::fs::write(&out, src).unwrap();
@@ -298,5 +311,514 @@ fn main() {
             eprintln!("usage: specgen batch|replay|print|count ...");
             std::process::exit(2);
         }
+    }
+}
+
+// ---------------------------------------------------------------------------------------------
+// multi-lexer modules and ill-formed mutants
+
+pub mod extra {
+    use super::*;
+    use vmodel::spec::{Re, Rule};
+
+    /// Several independent lexers declared in ONE module (names L0, L1, ...).
+    pub fn build_multi_case(seed: u64, index: usize) -> Case {
+        let mut rng = Rng::derive(seed, &[hash64(b"multi"), index as u64]);
+        let k = rng.range(2, 4);
+        let fams = ["bigclass", "rctx", "mixed", "actions", "bigclass"];
+        let mut variants = vec![];
+        for i in 0..k {
+            let fam = *rng.pick(&fams);
+            let spec = gen_family_spec(fam, seed, index * 8 + i);
+            variants.push(Variant {
+                spec,
+                opts: mk_opts(&format!("L{}", i), Paren::Minimal, false, 0),
+                label: format!("multi: lexer {} of {} in one module ({})", i, k, fam),
+            });
+        }
+        Case {
+            family: "multi".to_string(),
+            index,
+            variants,
+        }
+    }
+
+    pub fn emit_multi(name: &str, cases: &[Case], skip: &HashSet<(usize, usize)>) -> (String, J) {
+        let mut src = String::new();
+        let mut map = vec![];
+        src.push_str("// generated by specgen; do not edit\n");
+        src.push_str("#![allow(unused, non_snake_case, non_camel_case_types, clippy::all)]\n");
+        src.push_str("use vdrive::{St, Tok};\n\n");
+        let mut line = 4usize;
+        for (ci, c) in cases.iter().enumerate() {
+            let whole_skipped = (0..c.variants.len()).any(|vi| skip.contains(&(ci, vi)));
+            if whole_skipped {
+                continue;
+            }
+            let start = line;
+            let mut m = String::new();
+            writeln!(m, "mod c{} {{", ci).unwrap();
+            writeln!(m, "    use super::*;").unwrap();
+            writeln!(m, "    use lexgen::lexer;").unwrap();
+            let mut cur = line + 3;
+            let mut ents = vec![];
+            for (vi, v) in c.variants.iter().enumerate() {
+                let lx = print_lexer(&v.spec, &v.opts);
+                let n = lx.matches('\n').count();
+                ents.push((vi, cur, cur + n - 1, lx.clone()));
+                m.push_str(&lx);
+                writeln!(m, "    pub mod g{} {{ use super::*; vdrive::glue!({}); }}", vi, v.opts.name).unwrap();
+                cur += n + 1;
+            }
+            writeln!(m, "}}").unwrap();
+            let nl = m.matches('\n').count();
+            src.push_str(&m);
+            line += nl;
+            for (vi, ls, le, lx) in ents {
+                let v = &c.variants[vi];
+                map.push(
+                    J::obj()
+                        .with("case", J::i(ci))
+                        .with("variant", J::i(vi))
+                        .with("family", J::s(&c.family))
+                        .with("index", J::i(c.index))
+                        .with("label", J::s(&v.label))
+                        .with("start", J::i(if vi == 0 { start } else { ls }))
+                        .with("end", J::i(le + 1))
+                        .with("lexer_start", J::i(ls))
+                        .with("lexer_end", J::i(le))
+                        .with("spec", J::s(&v.spec.to_text()))
+                        .with("summary", J::s(&summarize(&v.spec)))
+                        .with("source", J::s(&lx)),
+                );
+            }
+        }
+        src.push_str("\nfn main() {\n    let cases = vec![\n");
+        for (ci, c) in cases.iter().enumerate() {
+            let whole_skipped = (0..c.variants.len()).any(|vi| skip.contains(&(ci, vi)));
+            writeln!(src, "        vdrive::CaseEntry {{ family: {}, index: {}, variants: vec![", rust_str(&c.family), c.index).unwrap();
+            for (vi, v) in c.variants.iter().enumerate() {
+                let fac = if whole_skipped {
+                    "None".to_string()
+                } else {
+                    format!("Some(c{}::g{}::factory())", ci, vi)
+                };
+                writeln!(src, "            ({}, {}, {}),", rust_str(&v.label), rust_str(&v.spec.to_text()), fac).unwrap();
+            }
+            src.push_str("        ] },\n");
+        }
+        src.push_str("    ];\n");
+        writeln!(src, "    vdrive::driver::run_batch({}, &cases);", rust_str(name)).unwrap();
+        src.push_str("}\n");
+        (src, J::Arr(map))
+    }
+
+    fn subtree_paths(re: &Re, path: &mut Vec<u8>, out: &mut Vec<Vec<u8>>) {
+        out.push(path.clone());
+        match re {
+            Re::Star(a) | Re::Plus(a) | Re::Opt(a) => {
+                path.push(0);
+                subtree_paths(a, path, out);
+                path.pop();
+            }
+            Re::Cat(a, b) | Re::Alt(a, b) | Re::Diff(a, b) => {
+                path.push(0);
+                subtree_paths(a, path, out);
+                path.pop();
+                path.push(1);
+                subtree_paths(b, path, out);
+                path.pop();
+            }
+            _ => {}
+        }
+    }
+
+    fn replace_at(re: &mut Re, path: &[u8], new: Re) {
+        if path.is_empty() {
+            *re = new;
+            return;
+        }
+        match re {
+            Re::Star(a) | Re::Plus(a) | Re::Opt(a) => replace_at(a, &path[1..], new),
+            Re::Cat(a, b) | Re::Alt(a, b) | Re::Diff(a, b) => {
+                if path[0] == 0 {
+                    replace_at(a, &path[1..], new)
+                } else {
+                    replace_at(b, &path[1..], new)
+                }
+            }
+            _ => {}
+        }
+    }
+
+    fn rule_positions(spec: &Spec) -> Vec<(usize, usize)> {
+        let mut v = vec![];
+        for (si, s) in spec.sets.iter().enumerate() {
+            for (ei, e) in s.entries.iter().enumerate() {
+                if let Entry::Rule(_) = e {
+                    v.push((si, ei));
+                }
+            }
+        }
+        v
+    }
+
+    fn rule_mut(spec: &mut Spec, pos: (usize, usize)) -> &mut Rule {
+        match &mut spec.sets[pos.0].entries[pos.1] {
+            Entry::Rule(r) => r,
+            _ => unreachable!(),
+        }
+    }
+
+    /// Replace a random subtree (not under `#`, to keep the violation single) of a random rule.
+    fn plant(spec: &mut Spec, rng: &mut Rng, new: Re, in_ctx: bool) -> String {
+        let pos = *rng.pick(&rule_positions(spec));
+        let r = rule_mut(spec, pos);
+        if in_ctx {
+            match &mut r.ctx {
+                Some(c) => {
+                    let mut paths = vec![];
+                    subtree_paths(c, &mut vec![], &mut paths);
+                    let paths: Vec<Vec<u8>> = paths.into_iter().filter(|p| !under_diff(c, p)).collect();
+                    let p = rng.pick(&paths).clone();
+                    replace_at(c, &p, new);
+                }
+                None => r.ctx = Some(new),
+            }
+            format!("context of rule {} in set {}", r.id, pos.0)
+        } else {
+            let mut paths = vec![];
+            subtree_paths(&r.re, &mut vec![], &mut paths);
+            let re_copy = r.re.clone();
+            let paths: Vec<Vec<u8>> = paths.into_iter().filter(|p| !under_diff(&re_copy, p)).collect();
+            let p = rng.pick(&paths).clone();
+            if p.is_empty() {
+                // keep the rule non-trivial: concatenate instead of replacing the whole regex
+                r.re = Re::cat(new, r.re.clone());
+            } else {
+                replace_at(&mut r.re, &p, new);
+            }
+            format!("regex of rule {} in set {}", r.id, pos.0)
+        }
+    }
+
+    fn under_diff(re: &Re, path: &[u8]) -> bool {
+        let mut cur = re;
+        for (i, b) in path.iter().enumerate() {
+            if let Re::Diff(_, _) = cur {
+                let _ = i;
+                return true;
+            }
+            cur = match cur {
+                Re::Star(a) | Re::Plus(a) | Re::Opt(a) => a,
+                Re::Cat(a, c) | Re::Alt(a, c) | Re::Diff(a, c) => {
+                    if *b == 0 {
+                        a
+                    } else {
+                        c
+                    }
+                }
+                _ => return false,
+            };
+        }
+        false
+    }
+
+    pub struct Mutant {
+        pub kind: String,
+        pub where_: String,
+        pub text: String,
+        pub control: bool,
+    }
+
+    fn printed(spec: &Spec) -> String {
+        print_lexer(spec, &mk_opts("L", Paren::Minimal, false, 0))
+    }
+
+    /// Control + one mutant per violation kind, each with exactly one seeded static violation.
+    pub fn build_illformed(seed: u64, index: usize) -> Vec<Mutant> {
+        let mut rng = Rng::derive(seed, &[hash64(b"illformed"), index as u64]);
+        // base: a named multi-set spec with a top-level let, an error type and at least two sets
+        let mut base = loop {
+            let i = rng.below(1 << 20);
+            let s = gen_family_spec(if rng.chance(1, 2) { "scope" } else { "mixed" }, seed, i);
+            if s.named && s.sets.len() >= 2 {
+                break s;
+            }
+        };
+        base.error_type = true;
+        if base.lets.is_empty() {
+            base.lets.push(("t".to_string(), Re::Chr('a')));
+        }
+        // make sure some rule has a context (for the context mutants the plant adds one anyway)
+        let control_text = printed(&base);
+        let mut out = vec![Mutant {
+            kind: "control".into(),
+            where_: "".into(),
+            text: control_text.clone(),
+            control: true,
+        }];
+        let mut push = |kind: &str, where_: String, spec: &Spec| {
+            out.push(Mutant {
+                kind: kind.to_string(),
+                where_,
+                text: printed(spec),
+                control: false,
+            });
+        };
+        // 1-2 unbound variable in a rule / in a context
+        {
+            let mut s = base.clone();
+            let w = plant(&mut s, &mut rng, Re::var("nope"), false);
+            push("unbound variable in a rule", w, &s);
+            let mut s = base.clone();
+            let w = plant(&mut s, &mut rng, Re::var("nope"), true);
+            push("unbound variable in a right context", w, &s);
+        }
+        // 3 unbound variable inside a let that is used
+        {
+            let mut s = base.clone();
+            let si = rng.below(s.sets.len());
+            let top = rng.chance(1, 2);
+            if top {
+                s.lets.push(("u".to_string(), Re::cat(Re::var("nope"), Re::Chr('a'))));
+            } else {
+                s.sets[si].entries.insert(0, Entry::Let("u".to_string(), Re::cat(Re::var("nope"), Re::Chr('a'))));
+            }
+            s.sets[si].entries.push(Entry::Rule(Rule {
+                id: 900,
+                re: Re::cat(Re::var("u"), Re::Chr('b')),
+                ctx: None,
+                act: Action::Simple(0),
+            }));
+            push("unbound variable inside a let that is used", format!("{} let, used in set {}", if top { "top-level" } else { "local" }, si), &s);
+        }
+        // 4-6 variable defined twice
+        {
+            let mut s = base.clone();
+            let (n, r) = s.lets[rng.below(s.lets.len())].clone();
+            s.lets.push((n, r));
+            push("variable defined twice (top-level / top-level)", "".into(), &s);
+            let mut s = base.clone();
+            let (n, _) = s.lets[rng.below(s.lets.len())].clone();
+            let si = rng.below(s.sets.len());
+            let at = rng.below(s.sets[si].entries.len() + 1);
+            s.sets[si].entries.insert(at, Entry::Let(n, Re::Chr('b')));
+            push("variable defined twice (top-level / rule-set-local)", format!("set {} entry {}", si, at), &s);
+            let mut s = base.clone();
+            let si = rng.below(s.sets.len());
+            s.sets[si].entries.insert(0, Entry::Let("w".to_string(), Re::Chr('a')));
+            let at = rng.range(1, s.sets[si].entries.len());
+            s.sets[si].entries.insert(at, Entry::Let("w".to_string(), Re::Chr('b')));
+            push("variable defined twice (local / local)", format!("set {} entries 0 and {}", si, at), &s);
+        }
+        // 7 rule set defined twice
+        {
+            let mut s = base.clone();
+            let si = rng.below(s.sets.len());
+            let mut dup = s.sets[si].clone();
+            dup.entries.retain(|e| matches!(e, Entry::Rule(_)));
+            dup.entries.truncate(1);
+            let at = rng.range(si + 1, s.sets.len());
+            s.sets.insert(at, dup);
+            push("rule set defined twice", format!("set {} repeated at position {}", si, at), &s);
+        }
+        // 8 first rule set not named Init (renamed everywhere)
+        {
+            let mut s = base.clone();
+            s.sets[0].name = "Start".into();
+            for set in s.sets.iter_mut() {
+                for e in set.entries.iter_mut() {
+                    if let Entry::Rule(r) = e {
+                        if let Action::Do(bs) | Action::Try(bs) = &mut r.act {
+                            for (_, o) in bs.iter_mut() {
+                                if o.switch.as_deref() == Some("Init") {
+                                    o.switch = Some("Start".into());
+                                }
+                            }
+                        }
+                    }
+                }
+            }
+            push("first rule set not named Init", "".into(), &s);
+        }
+        // 9 Init is not the first rule set
+        {
+            let mut s = base.clone();
+            let init = s.sets.remove(0);
+            let at = rng.range(1, s.sets.len());
+            s.sets.insert(at, init);
+            push("Init is not the first rule set", format!("Init at position {}", at), &s);
+        }
+        // 10 unknown built-in
+        {
+            let mut s = base.clone();
+            let in_ctx = rng.chance(1, 3);
+            let w = plant(&mut s, &mut rng, Re::bi("nope"), in_ctx);
+            push("unknown built-in", w, &s);
+        }
+        // 11.. operand of `#` that is not a character class
+        {
+            let bad: Vec<(&str, Re)> = vec![
+                ("string", Re::str("ab")),
+                ("`*`", Re::star(Re::Chr('a'))),
+                ("`+`", Re::plus(Re::Chr('a'))),
+                ("`?`", Re::opt(Re::Chr('a'))),
+                ("concatenation", Re::cat(Re::Chr('a'), Re::Chr('b'))),
+                ("`$`", Re::Eoi),
+            ];
+            for (name, x) in bad {
+                let mut s = base.clone();
+                let left = rng.chance(1, 2);
+                let d = if left {
+                    Re::diff(x.clone(), Re::Chr('z'))
+                } else {
+                    Re::diff(Re::Any, x.clone())
+                };
+                let in_ctx = rng.chance(1, 4);
+                let w = plant(&mut s, &mut rng, d, in_ctx);
+                push(&format!("{} operand of # is a {}", if left { "left" } else { "right" }, name), w, &s);
+            }
+            // variable bound to a non-class
+            let mut s = base.clone();
+            s.lets.push(("nc".to_string(), Re::str("ab")));
+            let w = plant(&mut s, &mut rng, Re::diff(Re::Any, Re::var("nc")), false);
+            push("right operand of # is a variable bound to a string", w, &s);
+        }
+        // ---- text-level violations
+        let lines: Vec<String> = control_text.lines().map(|l| l.to_string()).collect();
+        let join = |ls: &Vec<String>| -> String {
+            let mut t = ls.join("\n");
+            t.push('\n');
+            t
+        };
+        let find = |pred: &dyn Fn(&str) -> bool| -> Vec<usize> { (0..lines.len()).filter(|i| pred(&lines[*i])).collect() };
+        let mut text_mut = |kind: &str, where_: String, ls: Vec<String>| {
+            out.push(Mutant {
+                kind: kind.to_string(),
+                where_,
+                text: join(&ls),
+                control: false,
+            });
+        };
+        let first_rule_line = find(&|l| l.trim_start().starts_with("rule "))[0];
+        {
+            let mut ls = lines.clone();
+            ls.insert(first_rule_line, "        'q' = Tok(99, 0),".to_string());
+            text_mut("named and unnamed rules mixed", "unnamed rule before the first rule set".into(), ls);
+            let mut ls = lines.clone();
+            let last = ls.len() - 1;
+            ls.insert(last, "        'q' = Tok(99, 0),".to_string());
+            text_mut("named and unnamed rules mixed", "unnamed rule after the last rule set".into(), ls);
+        }
+        {
+            let err_line = find(&|l| l.trim_start().starts_with("type Error"))[0];
+            let mut ls = lines.clone();
+            let at = if rng.chance(1, 2) { err_line + 1 } else { first_rule_line };
+            ls.insert(at, "        type Error = u32;".to_string());
+            text_mut("error type declared twice", format!("second declaration at line {}", at), ls);
+            let mut ls = lines.clone();
+            ls[err_line] = "        type Failure = u32;".to_string();
+            text_mut("malformed syntax: `type` item that is not `type Error`", "".into(), ls);
+        }
+        let action_lines = find(&|l| (l.contains("=> |lexer|") || l.contains("=? |lexer|") || l.contains("= Tok(")) && l.trim_end().ends_with(','));
+        if !action_lines.is_empty() {
+            // missing comma after a rule that is followed by another rule
+            let cands: Vec<usize> = action_lines.iter().copied().filter(|i| action_lines.contains(&(i + 1))).collect();
+            if !cands.is_empty() {
+                let i = *rng.pick(&cands);
+                let mut ls = lines.clone();
+                let l = ls[i].trim_end().to_string();
+                ls[i] = l[..l.len() - 1].to_string();
+                text_mut("malformed syntax: missing comma between rules", format!("line {}", i), ls);
+            }
+            let i = *rng.pick(&action_lines);
+            let mut ls = lines.clone();
+            if let Some(p) = ls[i].find(" =") {
+                let head = ls[i][..p].to_string();
+                ls[i] = format!("{} => ,", head);
+                text_mut("malformed syntax: missing right-hand side", format!("line {}", i), ls);
+            }
+            let i = *rng.pick(&action_lines);
+            let mut ls = lines.clone();
+            if let Some(p) = ls[i].find(" =") {
+                let (head, tail) = ls[i].split_at(p);
+                ls[i] = format!("{} |{}", head, tail);
+                text_mut("malformed syntax: dangling `|`", format!("line {}", i), ls);
+            }
+        }
+        {
+            let rl = find(&|l| l.trim_start().starts_with("rule "));
+            let i = *rng.pick(&rl);
+            let mut ls = lines.clone();
+            ls[i] = ls[i].replacen("rule ", "rul ", 1);
+            text_mut("malformed syntax: `rule` misspelt", format!("line {}", i), ls);
+        }
+        {
+            let mut ls = lines.clone();
+            let last = ls.len() - 1;
+            ls.insert(last, "        ;".to_string());
+            text_mut("malformed syntax: stray token after the last rule set", "".into(), ls);
+            let mut ls = lines.clone();
+            let hdr = find(&|l| l.contains("pub L(St) -> Tok;"))[0];
+            ls[hdr] = ls[hdr].replace("-> Tok;", "-> Tok");
+            text_mut("malformed syntax: missing `;` after the header", "".into(), ls);
+            let let_lines = find(&|l| l.trim_start().starts_with("let "));
+            if !let_lines.is_empty() {
+                let i = *rng.pick(&let_lines);
+                let mut ls = lines.clone();
+                ls[i] = ls[i].replacen(" = ", " ", 1);
+                text_mut("malformed syntax: `let` without `=`", format!("line {}", i), ls);
+            }
+            if !action_lines.is_empty() {
+                let i = *rng.pick(&action_lines);
+                let mut ls = lines.clone();
+                ls[i] = format!("        [\"ab\"]{}", &ls[i][ls[i].find(" =").unwrap_or(0)..]);
+                text_mut("malformed syntax: string inside a bracket set", format!("line {}", i), ls);
+            }
+        }
+        out
+    }
+
+    pub fn emit_illformed(name: &str, seed: u64, indices: &[usize]) -> (String, J) {
+        let mut src = String::new();
+        let mut map = vec![];
+        src.push_str("// generated by specgen; do not edit\n");
+        src.push_str("#![allow(unused, non_snake_case, non_camel_case_types, clippy::all)]\n");
+        src.push_str("use vdrive::{St, Tok};\n\n");
+        let mut line = 4usize;
+        for (ci, idx) in indices.iter().enumerate() {
+            let ms = build_illformed(seed, *idx);
+            for (vi, m) in ms.iter().enumerate() {
+                let start = line;
+                let mut t = String::new();
+                writeln!(t, "mod c{}v{} {{", ci, vi).unwrap();
+                writeln!(t, "    use super::*;").unwrap();
+                writeln!(t, "    use lexgen::lexer;").unwrap();
+                t.push_str(&m.text);
+                writeln!(t, "}}").unwrap();
+                let nl = t.matches('\n').count();
+                src.push_str(&t);
+                line += nl;
+                map.push(
+                    J::obj()
+                        .with("case", J::i(ci))
+                        .with("variant", J::i(vi))
+                        .with("family", J::s("illformed"))
+                        .with("index", J::i(*idx))
+                        .with("label", J::s(&m.kind))
+                        .with("where", J::s(&m.where_))
+                        .with("control", J::Bool(m.control))
+                        .with("start", J::i(start))
+                        .with("end", J::i(line - 1))
+                        .with("spec", J::s(""))
+                        .with("summary", J::s(&m.kind))
+                        .with("source", J::s(&m.text)),
+                );
+            }
+        }
+        src.push_str("\nfn main() {}\n");
+        let _ = name;
+        (src, J::Arr(map))
     }
 }
